@@ -576,7 +576,7 @@ pub fn run(tier: Tier) -> i32 {
             level: "exploration",
             rule: "one evaluation = one scenario on a simulated node with a simulated disk (up to 3 checkpoint generations of bincode bytes + feed offset): fault-laden feed, resets, checkpoints (some writes lost), crashes that discard the in-memory instance and restore from the newest durable generation with journal replay (some crashing again mid-replay), chained serialize->deserialize round-trips (bincode, and serde_json where the state is representable in JSON), then a continuation of at least sum(periods)+2 ticks compared tick by tick with the never-serialized shadow. Sweep: periods 1..=4, checkpoint at every prefix 0..=16 of 3 fixed data patterns, journal lengths 0..=3, with/without reset right before the checkpoint. distinct_nontrivial counts distinct situations (indicator, period bucket, window phase at the checkpoint, restore kind and journal-length class, fault most recently delivered before the checkpoint, input mode, ticks-since-restore class {0,1,<n,=n,>n}) in which an output of a node that really went through the disk was compared; crashes with no durable generation restart from new() and are trivial.",
             assumptions: vec![
-                "bincode 1.3 is the wire format for checkpoints; serde_json is exercised by round-trips only and only where it can represent the state (JSON cannot carry NaN/inf): a failed JSON round-trip is skipped and counted, a successful one must preserve behaviour".into(),
+                "bincode 1.3 is the wire format for checkpoints; serde_json is exercised by round-trips only and only where it can represent the state (JSON cannot carry NaN/inf): a state whose JSON text contains `null` is skipped and counted; a null-free text must be readable by the instance that wrote it and the restored instance must preserve behaviour".into(),
                 "torn/bit-flipped checkpoint bytes are deliberately not injected: the property promises nothing about corrupted input to deserialize".into(),
                 "oracle = the same real code that never went through the disk".into(),
             ],
